@@ -4,6 +4,7 @@ From Coq Require Import List Bool Ascii String.
 From Echo Require Import Base.Sx Mw.Auth Mw.AuthProofs.
 Import ListNotations.
 Open Scope char_scope.
+From Echo Require Import PropLemmas.C13.
 
 Theorem C13_basic_sound : forall decode validator auth, fst (basic_auth decode validator auth) = Ran ->
   exists u p, decode (skipn 6 auth) = Some (u ++ ":" :: p) /\ no_colon u = true /\ validator u p = VTrue /\
@@ -37,12 +38,12 @@ Print Assumptions C13_basic_blocks.
    prefix removed) that the validator accepted; and always when there is one *)
 Theorem C13_keyauth_sound : forall validator ls, fst (key_auth validator ls) = Ran ->
   exists l keys k, In l ls /\ extract l = inl keys /\ In k keys /\ validator k = VTrue /\ present l k.
-Proof. intros v ls. exact (key_sound v ls false []). Qed.
+Proof. exact C13_keyauth_sound_l. Qed.
 Print Assumptions C13_keyauth_sound.
 
 Theorem C13_keyauth_complete : forall validator ls l keys k, In l ls -> extract l = inl keys -> In k keys ->
   validator k = VTrue -> fst (key_auth validator ls) = Ran.
-Proof. intros v ls. exact (key_complete v ls false []). Qed.
+Proof. exact C13_keyauth_complete_l. Qed.
 Print Assumptions C13_keyauth_complete.
 
 (* every extracted value is literally present at its location *)
